@@ -6,6 +6,8 @@
   * `Mix.*`    : the additive noise models on a `MixedStabilizer` (graphiq/noise/noise_models.py,
                  graphiq/backends/stabilizer/state.py) — `DepolarizingNoise` with its `factor > 0` filter and
                  `MixedStabilizer.reduce()` exactly as coded (it pops while enumerating), `PauliError`, `PhotonLoss`;
+                 `MixedStabilizer.apply_measurement`: `Mix.measure` (the joint measurement that repairs finding F2),
+                 `Mix.measureOld` (per branch: graphiq before that repair), `Mix.measureDraw` (probabilistic setting, scripted draw);
   * `DMx.*`    : the same noise models and the gates of `DensityMatrixCompiler.compile_one_gate` on an exact density matrix;
   * `assignNoise`, `unwrap`, `identifyNoise` : noise map → per-operation noise
                  (graphiq/circuit/circuit_dag.py `_noisy_gates`, `_find_wrapped_noise`; ops.py `OneQubitGateWrapper.unwrap`;
